@@ -125,6 +125,12 @@ func reflectSet(s *loopSrc) (ss *j5schema.SchemaSet, err error, site string, pan
 }
 
 func genLoopOp(h *vh.H, i int) string {
+	if i%4 == 3 {
+		// model validation outside the export image (no oracle): see importop.go
+		if op := genImportOp(h); op != "" {
+			return op
+		}
+	}
 	mode := "mem"
 	if h.Chance(1, 3) {
 		mode = "wire"
